@@ -54,6 +54,17 @@ def gen_cases(rng, n_valid, n_fault):
         if H.count_nodes(r) <= 10:
             if rng.random() < 0.3:
                 float_sizes(rng, r)
+            if rng.random() < 0.3:
+                # built-in functions of several arguments whose arguments become numbers at different moments of a partial
+                # evaluation: round(value, digits)
+                cands = [n for n, _ in H._nodes(r) if len(n["input_params"]) >= 2 and not n["repetition"]]
+                if cands:
+                    nd = rng.choice(cands)
+                    p, q = rng.sample(nd["input_params"], 2)
+                    # (round: defined for every pair of finite arguments; log / mod / multiplicity have poles and domain errors
+                    # of their own, which C17 does not cover)
+                    nd["resources"].append({"name": "zr", "type": "other",
+                                            "value": E.fun("round", E.op("div", E.sym(p), E.num(3)), E.sym(q))})
             out.append({"routine": r, "faulted": False, "seed": rng.randint(0, 10**9)})
     k = 0
     tries = 0
